@@ -4,14 +4,21 @@
                                       the source wrappers (send in program order, Dropped from Drop)
      ntp-proto/src/algorithm/kalman/mod.rs   add_source / remove_source / source_update /
                                       source_message / update_clock (early return, progress, candidate
-                                      filter, select, combine, clock calls)
+                                      filter, select, combine, clock calls, steer_offset /
+                                      steer_frequency / change_desired_frequency) and
+
+                                      time_update (the timer path: ends a slew)
+     ntp-proto/src/algorithm/mod.rs   the single-shot sleeper of `run` (armed by an update that returns
+                                      next_update = Some(..), fires once, calls time_update)
    Definitions only.
 
    What is abstract: the float state of a snapshot (only its identity [snap_serial], its filter
-   time and the interval keys select needs are kept), and the three functions of the selected
-   snapshots that are float computations -- selection, steering decision, leap vote -- which are
-   the oracles of a [world]; [real_world] instantiates them with Model/Select.v and
-   Model/Combine.v for the correspondence. *)
+   time and the interval keys select needs are kept; the rewriting of the stored snapshots by
+   steering -- process_offset_steering / process_frequency_steering -- is not modelled), and the
+   three functions of the selected snapshots that are float computations -- selection, the
+   comparisons of the steering decision, leap vote -- which are the oracles of a [world];
+   [real_world] / [tape_world] instantiate them with Model/Select.v and Model/Combine.v for the
+   correspondence. *)
 From V Require Export Base.Prelude.
 From V Require Import Model.Select Model.Combine.
 
@@ -38,8 +45,14 @@ Definition update (i : Z) (f : entry -> entry) (m : cmap) : cmap :=
   map (fun je => if fst je =? i then (fst je, f (snd je)) else je) m.
 Definition insert (i : Z) (e : entry) (m : cmap) : cmap := (i, e) :: remove i m.
 
-Record ctl := mkCtl { c_map : cmap; c_startup : bool (* in_startup *) }.
-Definition ctl_init : ctl := mkCtl [] true.
+Record ctl := mkCtl {
+  c_map : cmap;
+  c_startup : bool;     (* in_startup *)
+  c_slew : bool;        (* desired_freq != 0.0: a slew is in progress *)
+  c_nsteer : nat        (* ghost: number of consensus steps so far (index of the steering oracle) *)
+}.
+Definition ctl_init : ctl := mkCtl [] true false 0.
+Definition with_map (m : cmap) (c : ctl) : ctl := mkCtl m (c_startup c) (c_slew c) (c_nsteer c).
 
 (* source-task operations and system events *)
 Inductive op := Measure (s : snap) | SetUsable (b : bool) | DropSrc.
@@ -47,18 +60,41 @@ Inductive op := Measure (s : snap) | SetUsable (b : bool) | DropSrc.
    (id, Some o): the message sent by the wrapper of source id, handled by `run` *)
 Definition event : Type := (Z * option op)%type.
 
+(* the three float comparisons of the steering decision of one consensus step:
+     wi_offset   offset_delta.abs() > offset_uncertainty * steer_offset_threshold
+     wi_big      change.abs() > step_threshold                       (in steer_offset)
+     wi_freq     freq_delta.abs() > freq_uncertainty * steer_frequency_threshold *)
+Record wish := mkWish { wi_offset : bool; wi_big : bool; wi_freq : bool }.
+Definition nowish : wish := mkWish false false false.
+
 Record world := mkWorld {
   w_select : list snap -> list snap;   (* select::select on the candidates *)
-  w_steer : list snap -> list Z;       (* clock calls of steer_offset/steer_frequency: codes 4 (step_clock), 5 (set_frequency) *)
+  w_wish : nat -> list snap -> wish;   (* the comparisons of the k-th consensus step (they depend on the whole float
+                                          history: the step index stands for it, any outcome sequence is a world) *)
   w_vote : list snap -> option Z       (* combine's leap vote on the selection *)
 }.
 
-(* what one handled message makes visible *)
+(* what one handled message / timer expiry makes visible *)
 Record output := mkOut {
-  o_clock : list Z;          (* NtpClock calls: 1 disable_ntp_algorithm, 2 error_estimate_update, 30+leap status_update, 4, 5 *)
-  o_used : option (list Z)   (* InternalStateUpdate.used_sources *)
+  o_clock : list Z;          (* NtpClock calls: 1 disable_ntp_algorithm, 2 error_estimate_update, 30+leap status_update, 4 step_clock, 5 set_frequency *)
+  o_used : option (list Z);  (* InternalStateUpdate.used_sources *)
+  o_next : bool              (* InternalStateUpdate.next_update is Some(..): the wrapper (re)arms its sleeper *)
 }.
-Definition out0 : output := mkOut [] None.
+Definition out0 : output := mkOut [] None false.
+
+(* the steering part of update_clock:
+     if desired_freq == 0.0 && wi_offset { steer_offset } else if wi_freq { steer_frequency } else { nothing }
+     steer_offset: wi_big -> step_clock (4), no timer; else start a slew: change_desired_frequency(nonzero)
+                   -> steer_frequency -> set_frequency (5), next_update = Some(duration)
+     steer_frequency: set_frequency (5)
+   -> (clock calls, desired_freq != 0.0 afterwards, next_update is Some).
+   (check_offset_steer's process::exit for an implausible step is not modelled: the process ends;
+    a slew that returns has desired_freq = -freq * signum(change) with freq > 0, see Duration::from_secs_f64) *)
+Definition steer (slew : bool) (w : wish) : list Z * bool * bool :=
+  if negb slew && wi_offset w then
+    if wi_big w then ([4], false, false) else ([5], true, true)
+  else if wi_freq w then ([5], slew, false)
+  else ([], slew, false).
 
 (* time - sourcetime < NtpDuration::ZERO on wrapping u64 timestamps *)
 Definition before (t s : Z) : bool := to_signed 64 (t - s) <? 0.
@@ -81,27 +117,33 @@ Definition update_clock (W : world) (c : ctl) (t : Z) : ctl * output :=
     let m := progress t (c_map c) in
     let sel := w_select W (candidates m) in
     match sel with
-    | [] => (mkCtl m (c_startup c), out0)                      (* "No consensus on current time" *)
+    | [] => (with_map m c, out0)                               (* "No consensus on current time" *)
     | _ :: _ =>
-        (mkCtl m false,
-         mkOut ((if c_startup c then [1] else []) ++ w_steer W sel ++ [2]
+        let st := steer (c_slew c) (w_wish W (c_nsteer c) sel) in
+        (mkCtl m false (snd (fst st)) (S (c_nsteer c)),
+         mkOut ((if c_startup c then [1] else []) ++ fst (fst st) ++ [2]
                 ++ match w_vote W sel with Some l => [30 + l] | None => [] end)
-               (Some (map snap_id sel)))
+               (Some (map snap_id sel)) (snd st))
     end.
+
+(* time_update: "End slew": change_desired_frequency(0.0, 0.0) -> steer_frequency -> exactly one
+   set_frequency; desired_freq = 0.0; source_message Some, used_sources None, next_update None *)
+Definition time_update (c : ctl) : ctl * output :=
+  (mkCtl (c_map c) (c_startup c) false (c_nsteer c), mkOut [5] None false).
 
 Definition store (i : Z) (s : snap) (m : cmap) : cmap :=
   update i (fun e => mkEntry (Some s) (e_usable e)) m.
 
 Definition handle (W : world) (c : ctl) (ev : event) : ctl * output :=
   match ev with
-  | (i, None) => (mkCtl (insert i (mkEntry None false) (c_map c)) (c_startup c), out0)
+  | (i, None) => (with_map (insert i (mkEntry None false) (c_map c)) c, out0)
   | (i, Some (SetUsable b)) =>
-      (mkCtl (update i (fun e => mkEntry (e_snap e) b) (c_map c)) (c_startup c), out0)
-  | (i, Some DropSrc) => (mkCtl (remove i (c_map c)) (c_startup c), out0)
+      (with_map (update i (fun e => mkEntry (e_snap e) b) (c_map c)) c, out0)
+  | (i, Some DropSrc) => (with_map (remove i (c_map c)) c, out0)
   | (i, Some (Measure s)) =>
       match lookup i (c_map c) with
       | None => (c, out0)                                      (* "Update from non-existing source" *)
-      | Some _ => update_clock W (mkCtl (store i s (c_map c)) (c_startup c)) (snap_update s)
+      | Some _ => update_clock W (with_map (store i s (c_map c)) c) (snap_update s)
       end
   end.
 
@@ -126,6 +168,34 @@ Fixpoint run_from (W : world) (c : ctl) (tr : list event) : ctl * list output :=
                let (c2, os) := run_from W c1 r in (c2, o :: os)
   end.
 Definition state_after (W : world) (tr : list event) : ctl := fst (run_from W ctl_init tr).
+
+(* ---- the wrapper's loop with its timer (TimeSyncControllerWrapper::run) ----
+   select! { message => handle it; if let Some(d) = update.next_update { sleeper.reset(now + d) }
+             sleeper => time_update(); if let Some(d) = update.next_update { sleeper.reset(now + d) } }
+   The sleeper is single-shot: enabled by reset, disabled when it fires.  [TimeUpdate] in a schedule
+   = the sleeper's deadline passes while the loop is waiting; with a disabled sleeper nothing happens. *)
+Record lstate := mkL { l_ctl : ctl; l_timer : bool (* sleeper enabled *) }.
+Definition l_init : lstate := mkL ctl_init false.
+Inductive tevent := Msg (ev : event) | TimeUpdate.
+
+Definition thandle (W : world) (s : lstate) (te : tevent) : lstate * output :=
+  match te with
+  | Msg ev => let co := handle W (l_ctl s) ev in (mkL (fst co) (l_timer s || o_next (snd co)), snd co)
+  | TimeUpdate =>
+      if l_timer s then let co := time_update (l_ctl s) in (mkL (fst co) (o_next (snd co)), snd co)
+      else (s, out0)
+  end.
+
+Fixpoint trun_from (W : world) (s : lstate) (tr : list tevent) : lstate * list output :=
+  match tr with
+  | [] => (s, [])
+  | te :: r => let (s1, o) := thandle W s te in
+               let (s2, os) := trun_from W s1 r in (s2, o :: os)
+  end.
+Definition tstate_after (W : world) (tr : list tevent) : lstate := fst (trun_from W l_init tr).
+(* the messages of a schedule, timer expiries left out *)
+Definition msgs (tr : list tevent) : list event :=
+  flat_map (fun te => match te with Msg ev => [ev] | TimeUpdate => [] end) tr.
 
 (* ---- schedules: interleavings of per-source scripts ---- *)
 Definition ops_of (i : Z) (tr : list event) : list (option op) :=
@@ -168,11 +238,19 @@ Definition real_vote (l : list snap) : option Z :=
   | Ok (Some v) => Some (leap_code v)
   | _ => None
   end.
-(* configuration of the harness: steering thresholds infinite, so no steering call *)
-Definition real_world (cf : cfg) : world := mkWorld (real_select cf) (fun _ => []) real_vote.
+(* configuration of the harness with steering thresholds infinite: no steering call *)
+Definition real_world (cf : cfg) : world := mkWorld (real_select cf) (fun _ _ => nowish) real_vote.
+(* steering configuration: the outcome of the float comparisons of the k-th consensus step is read
+   off the implementation's run (code: 0 none, 1 frequency, 2 offset+small = slew, 3 offset+big = step) *)
+Definition wish_of_code (z : Z) : wish :=
+  match z with 1 => mkWish false false true | 2 => mkWish true false false | 3 => mkWish true true false
+             | _ => nowish end.
+Definition tape_world (cf : cfg) (tape : list Z) : world :=
+  mkWorld (real_select cf) (fun k _ => wish_of_code (nth k tape 0)) real_vote.
 
-(* a case: configuration and the operations of the harness line; IDrain = observe *)
-Inductive item := IEv (e : event) | IDrain.
+(* a case: configuration and the operations of the harness line; IDrain = observe;
+   ITime = virtual time passes beyond any armed deadline *)
+Inductive item := IEv (e : event) | IDrain | ITime.
 
 Fixpoint insert_sorted (x : Z) (l : list Z) : list Z :=
   match l with [] => [x] | y :: r => if x <=? y then x :: l else y :: insert_sorted x r end.
@@ -188,18 +266,25 @@ Definition dump_entry (je : Z * entry) : list Z :=
    match e_snap (snd je) with Some s => snap_time s | None => 0 end].
 
 (* observation at a drain: -1, clock calls since the last drain, the wrapper's used_sources
-   (sorted), the controller map (sorted by id) *)
-Fixpoint observe (W : world) (c : ctl) (calls : list Z) (used : list Z) (l : list item) : list Z :=
+   (sorted), the controller map (sorted by id), desired_freq != 0, number of updates since the
+   last drain that returned next_update = Some *)
+Fixpoint observe (W : world) (s : lstate) (calls : list Z) (used : list Z) (arms : Z) (l : list item) : list Z :=
   match l with
   | [] => []
   | IDrain :: r =>
       (-1 :: Z.of_nat (length calls) :: calls) ++ (Z.of_nat (length used) :: sort_ids used)
-      ++ (Z.of_nat (length (c_map c)) :: flat_map dump_entry (sort_map (c_map c)))
-      ++ observe W c [] used r
+      ++ (Z.of_nat (length (c_map (l_ctl s))) :: flat_map dump_entry (sort_map (c_map (l_ctl s))))
+      ++ [if c_slew (l_ctl s) then 1 else 0; arms]
+      ++ observe W s [] used 0 r
   | IEv e :: r =>
-      let (c1, o) := handle W c e in
-      observe W c1 (calls ++ o_clock o) (match o_used o with Some u => u | None => used end) r
+      let (s1, o) := thandle W s (Msg e) in
+      observe W s1 (calls ++ o_clock o) (match o_used o with Some u => u | None => used end)
+              (if o_next o then arms + 1 else arms) r
+  | ITime :: r =>
+      let (s1, o) := thandle W s TimeUpdate in
+      observe W s1 (calls ++ o_clock o) (match o_used o with Some u => u | None => used end)
+              (if o_next o then arms + 1 else arms) r
   end.
 
-Definition msgloop_code (x : Z * Z * list item) : list Z :=
-  match x with (m, mx, l) => observe (real_world (mkCfg m mx)) ctl_init [] [] l end.
+Definition msgloop_code (x : Z * Z * list Z * list item) : list Z :=
+  match x with (m, mx, tape, l) => observe (tape_world (mkCfg m mx) tape) l_init [] [] 0 l end.
